@@ -70,6 +70,11 @@ func vh_SIS() {
 	post := vSnapshotNode(n)
 	vAssert(post.term >= mid.term, "C08.termMono")
 	vAssert(vImplies(vAnd(mid.state == Leader, post.state != Leader), post.term > mid.term), "C16.leader-steps-down-only-on-higher-term")
+	// a reply that carries a newer term always deposes the leader (the member is ahead: it must not be
+	// fed the snapshot forever)
+	if !rpcFailed && mid.state == Leader && f.snapshot != nil || (!rpcFailed && mid.state == Leader && post.term > mid.term) {
+		vAssert(vImplies(resp.Term > mid.term, vAnd(post.term == resp.Term, post.state == Follower)), "C08|C15.newer-reply-term-deposes-the-sender")
+	}
 	if f.matchIndex != match0 || f.nextIndex != next0 {
 		vCover("transfer-completed")
 		vAssert(vAnd(sent.Done, resp.BytesWritten == sent.Offset), "C15.transfer-completes-on-acknowledged-last-chunk")
